@@ -372,6 +372,15 @@ def main(argv):
     cases_bare += [{"kind": "PB", "src": g.typed_program(rng), "label": "bare-typed"} for _ in range(150 if quick else 3000)]
     run_stream("BARE-ENV", cases_bare)
 
+    # ---------------- (d'') runaway and deep recursion through every call path (the shapes of C18's check):
+    # a crash here is a C01 violation as much as a C18 one
+    import c18 as c18mod
+    cases_rec = []
+    for kk in (1, 8):
+        for name, defs, call in c18mod.shapes(kk):
+            cases_rec.append({"kind": "E", "src": defs + "\n" + call, "label": "recursion/" + name})
+    run_stream("RECURSION", cases_rec, builds=("release",))
+
     # ---------------- (a) grammar-based
     w = g.WildGen(rng, builtins, 64)
     w.avoid_slow = slow_fmt
